@@ -334,7 +334,7 @@ _add(Prop(
     stubs=["dasp_signal::ops::f64::sin -> recording marker returning a harness-chosen value in [-1,1] (sine_structure, "
            "sine_argument_any_phase)"],
     assumptions=["|sin(x)| <= 1 (CBMC's own model, or the marker's contract)"],
-    rules=[{"match": r"sine_argument_any_phase|const_hz_step_any", "tier": "thorough", "timeout": 3000}],
+    rules=[{"match": r"sine_argument_any_phase|const_hz_step_any|coarse_amplitude_bound_any_phase", "tier": "thorough", "timeout": 3000}],
     extra_engines=["phase_smt"],
     design_ref="DESIGN.md §4 C17",
     claim="The solver shows for every finite non-negative step that the phase starts at 0, every yielded phase is the "
